@@ -27,6 +27,8 @@ ENTRY = dict(
             "delta: differences add up to the total change": "theorem (delta_telescopes, delta_total_change, delta_snoc); over Parameter objects: open finding F4 (raises)",
             "aggregate: delivered sums + remainder = sum of inputs": "theorem (aggregate_conservation, aggregate_snoc)",
             "delivered values unmodified and in order": "theorem (passThrough_sublist, custom_outs)",
+            "several filter objects built around the same callback are independent": "theorem (instances_independent: each object filters its own call sequence as a fresh filter, however the calls interleave) + correspondence (the same factory expression evaluated 2-3 times around ONE callback object, coinciding streams; per-object judge C20.spec)",
+            "the delivered object IS the object passed in (pass-through filters)": "correspondence (identity observed by the harness; values: theorem passThrough_sublist)",
             "chains of two filters": "theorem (chain_delivered, chain_throttle_spacing, holds_chain)",
             "tolerance 0.1 = source constant": "theorem over the translated constant (tolerance_is_one_tenth)",
             "filters.py behaves as the machines": "correspondence (generated sequences; judge C20.spec on every implementation run)",
